@@ -9,6 +9,11 @@ Correspondence between Model/C07_Config.v (a composition of the C17 sampling mod
     breeding values overwritten in place, a relabelled population between calls), and the protocols' nmating / nprogeny validation,
   * an audit case enumerating every class / function of the anchored modules at run time (COVERED / SKIPPED below; anything
     unclassified fails the check),
+  * the decision space of every protocol over a cross map (OHV, UC x subset / integer / binary / real; unique_parents both ways): the
+    problem handed to the optimiser is recorded and compared with the model's xmapix enumeration (whole map: members 0..len-1 and bounds
+    0 / len-1 for the subset encodings, one bounded variable per row for the vector encodings); the sorting optimiser's choice is compared
+    with the model over the criterion of EVERY row, also on relabelled populations and on the relabelling that puts the best crosses in
+    the tail of the map,
 plus the independent predicate (the property stated on the implementation's outputs).
 Kernel expressions (Gen/C07_Kernel.v) are regenerated from the source by harness/translate/c07_kernel.py on every run (translate())."""
 import copy, itertools, math, random as _pyrandom
@@ -35,10 +40,15 @@ LEVEL_TEXT = ("Coq theorems over an executable model that composes the (proved) 
               "candidate crosses (BinaryMateSelectionConfiguration) uses the marked crosses floor or ceiling of ncross/k times, a contribution "
               "vector over candidate crosses (RealMateSelectionConfiguration) floor or ceiling of ncross*x_i/sum(x); the integer decision space UsefulnessCriterionIntegerSelection builds over the candidate "
               "crosses has, for every accepted cross design, one [0, nparent*sum(nmating)] pair per candidate cross and contains every allocation "
-              "of the design's matings to the candidate crosses. 118 kernel expressions "
+              "of the design's matings to the candidate crosses; the decision space every protocol over a cross map (OptimalHaploidValue* / UsefulnessCriterion* Selection, subset / integer / "
+              "binary / real encodings, unique and repeatable parents) hands to the optimiser is the WHOLE map: the subset encodings admit exactly the row "
+              "numbers 0..len(map)-1 in each of the ncross positions, the vector encodings have one bounded variable per row, the rows are the xmapix "
+              "enumeration (comb(n,k) rows only for unique parents; a space sized by comb(ntaxa, nparent) provably misses the tail, "
+              "C07_comb_sized_space_misses_tail). 170 kernel expressions "
               "(index / pointer formulas, size / replace / axis arguments, argument order, cross-map lookup, the setters' checks, the dispatch on "
               "nobj, score and argmax, the row of the solution and the attributes handed to the configuration in both branches of the eight "
-              "select() methods, lower bound / leaf test / range of triudix and triuix, xmapix, the slice of the sorting optimiser, the two numbers repeated as bounds of the UC integer decision space) are regenerated "
+              "select() methods, lower bound / leaf test / range of triudix and triuix, xmapix, the slice of the sorting optimiser, the two numbers repeated as bounds of the UC integer decision space, and per protocol over a cross map the arguments of _calc_xmap, "
+              "its triudix / triuix dispatch, the argument of numpy.arange, value and count of both numpy.repeat bounds and ndecn) are regenerated "
               "from the source on every run, the configurations assembled from them are proved equal to the hand model and the property theorems "
               "are stated about the assembled programs (C07_kernel_*), so a changed expression breaks the build whatever the cases exercise. The model is "
               "evaluated inside Coq against the implementation's outputs on generated inputs with recorded scripted draws (bit-exact "
@@ -61,13 +71,20 @@ RULE = ("case = (kind in {cfg, life, xmap, select, audit}, arguments, draw scrip
         "families EBV (4 encodings), GEBV, OCS, Random, OHV (subset- and integer-mate), UC (all four encodings over candidate crosses; the integer one with 1..3 crosses, scalar and per-cross nmating, its decision-space bounds compared with the model), 3..8 taxa, 1..2 traits, ties and distinct criteria, zero / negative / "
         "wrong-length nmating and nprogeny (must be refused by the constructor), nobj 1..2, weights of "
         "both signs, sorting optimiser / sorting hill climber / brute-force exact stubs, default and harness transformations of the front, "
-        "a relabelled second run; non-trivial = more candidates than slots filled by one member and a non-constant criterion / vector; "
+        "a relabelled second run; every one-objective subset-encoded run over a cross map is repeated on the population relabelled so that its best "
+        "ncross crosses are crosses among the highest-index taxa (tail of the map, selfs included when parents may repeat); fixed cases drive all eight "
+        "cross-map protocols with unique_parents both ways, 1..4 crosses, 3 parents (OHV), reversed / permuted relabellings; the problem handed to the "
+        "optimiser is recorded at minimize() (decision space, bounds, ndecn, the problem's own cross map) and the per-row criterion is evaluated on EVERY row "
+        "of that map, whatever space the protocol built; non-trivial = more candidates than slots filled by one member and a non-constant criterion / vector; "
         "distinct by SHA-256 of the case")
 TRUSTED = ["C17 model of the sampling utilities (checked by the C17 correspondence)",
            "harness/translate/c07_kernel.py (ast translator of the kernel expressions; fail closed: statement sequence of every sample_xconfig, keyword arguments of the sampling calls, "
            "class of the configuration a protocol builds and the shape of the setters are pinned, anything else is refused); numpy fancy indexing xmap[out,:] selects rows; "
            "numpy.repeat(arange(n), x) repeats position i x_i times; rng.choice(n) returns a start below n",
-           "numpy.argsort / argmax (first maximum) / repeat / fancy indexing semantics",
+           "numpy.argsort / argmax (first maximum) / repeat / fancy indexing semantics; numpy.arange(n) = 0..n-1, numpy.repeat(v, n) = n copies of v, "
+           "numpy.stack refuses rows of different lengths; the translator pins that the problem object of a cross-map protocol is built over the same "
+           "map as its decision space (OHV: from_pgmat_gpmod recomputes it from the same three arguments; UC: the map is handed on as decn_space_xmap)",
+           "props.c07._recording: the optimiser's minimize() is wrapped on the instance to record the problem it is handed, then calls the original",
            "harness-side exact optimiser stubs (enumeration) are correct minimisers over their finite candidate lists",
            "props.c07._Lazy: shuffle(x) with permutation pm sets x[i] = x[pm[i]]; choice returns a[ix] (a scalar request choice(n) returns ix < n); uniform returns the recorded value"]
 ASSUMPTIONS = ["decision vectors as the configuration setters accept them (1-d, integer / binary / floating); real vectors non-negative with positive sum on a dyadic grid",
@@ -441,7 +458,7 @@ def _select_case(rng, fam=None, enc=None, nobj=None, algo=None):
         if enc in ("subset", "mate") and nobj == 1: algo = rng.choice(["sorting", "sorting", "sorting", "sortinghc", "stub", "hc"])   # (not imate)
         else: algo = "stub"
     case["algo"] = algo
-    if mate: case["unique"] = rng.random() < 0.7 if fam == "ohv" else True
+    if mate: case["unique"] = rng.random() < (0.7 if fam == "ohv" else 0.6)          # unique_parents both ways in both families
     if rng.random() < 0.5:
         pi = list(range(ntaxa)); rng.shuffle(pi); case["relabel"] = pi
     if rng.random() < 0.35: case["session"] = _session_steps(rng, case)
@@ -518,7 +535,29 @@ def _select_fixed():
             uci(ncross=1), uci(ncross=2), uci(ncross=3, nmating=[2, 1, 3]), uci(ncross=2, nmating=[1, 4], nprogeny=[2, 1], miscout=False),
             uci(ncross=3, nmating=2, ntaxa=3, bv=[[8], [16], [24]], relabel=[2, 0, 1]),
             uci(ncross=2, nmating=[3, 1], ntrait=2, nobj=2, bv=[[8, 1], [24, 2], [16, 5], [40, 0]], u=[[1, 0], [2, 1], [-3, 2], [4, 0], [0, 1]]),
-            uci(ncross=1, session=[{"set": {"ncross": 3, "nmating": [1, 2, 1], "nprogeny": 1}}, {"set": {"ncross": 2, "nmating": 5, "nprogeny": [1, 2]}}])]
+            uci(ncross=1, session=[{"set": {"ncross": 3, "nmating": [1, 2, 1], "nprogeny": 1}}, {"set": {"ncross": 2, "nmating": 5, "nprogeny": [1, 2]}}])] \
+        + _xmap_space_fixed(v)
+
+def _xmap_space_fixed(v):
+    """every protocol whose decision variables index a cross map (OHV, UC x subset / integer / binary / real), unique_parents BOTH
+    ways, one and several crosses, three parents (OHV), per-cross nmating / nprogeny, a reversed and a permuted relabelling; the
+    subset encodings with the sorting optimiser (exact), so that - together with the tail relabelling every such case gets at run
+    time - the best crosses are looked for in the head AND in the tail (crosses among the highest-index taxa, selfs among them
+    when parents may repeat) of the map"""
+    out = []
+    bv4, bv5 = [[8], [24], [16], [40]], [[8], [-24], [16], [40], [3]]
+    for fam in ("ohv", "uc"):
+        for uq in (True, False):
+            m = lambda **kw: v(**dict(dict(family=fam, enc="mate", unique=uq, algo="sorting", draw={"mode": "rand", "seed": 11}), **kw))
+            out += [m(ncross=1), m(ncross=3, relabel=[2, 0, 5, 1, 4, 3], gseed=8), m(ncross=2, ntaxa=5, bv=bv5, relabel=[4, 3, 2, 1, 0], gseed=21, obj_wt=-1.0),
+                    m(ncross=4, ntaxa=4, bv=bv4, relabel=[3, 2, 1, 0], gseed=5, nmating=[1, 2, 1, 3]), m(ncross=2, algo="sortinghc", gseed=13, u=[[-1], [2], [3], [-4], [1]])]
+            if fam == "ohv": out += [m(ncross=2, nparent=3, ntaxa=4, bv=bv4, relabel=[3, 2, 1, 0], gseed=9), m(ncross=1, nparent=3, ntaxa=5, bv=bv5, relabel=[4, 3, 2, 1, 0])]
+            for enc in ("imate", "bmate", "rmate"):
+                e = lambda **kw: v(**dict(dict(family=fam, enc=enc, unique=uq, algo="stub", ntaxa=4 if uq else 3, bv=bv4 if uq else bv4[:3],
+                                               relabel=[3, 2, 1, 0] if uq else [2, 1, 0], draw={"mode": "rand", "seed": 12}), **kw))
+                out += [e(ncross=1), e(ncross=2, nmating=[2, 1], nprogeny=[1, 3], gseed=17)]
+            if fam == "ohv": out.append(v(family=fam, enc="bmate", unique=uq, algo="stub", nparent=3, ntaxa=3, bv=bv4[:3], relabel=[2, 1, 0], ncross=2))
+    return out
 
 def _new_decn(rng, cls, nunit, t, k=None):
     """a decision vector of class cls over nunit units (candidates, or rows of the cross map); k: required length (subset / mate)"""
@@ -955,6 +994,33 @@ def _stub_algo(enc, case):
                         soln_eqcv=numpy.stack([numpy.asarray(ev[i][2], dtype=float) for i in idx]))
     return Stub()
 
+def _numj(v):
+    v = float(v)
+    return int(v) if v.is_integer() else _hx(v)
+
+def _prob_record(prob):
+    """the decision space of the problem an optimiser is handed: number of decision variables, the space itself (the admissible
+    members for a subset encoding, the stacked bounds for a vector encoding), both bounds, and the problem's own cross map"""
+    sp = numpy.asarray(prob.decn_space)
+    rec = {"ndecn": int(prob.ndecn), "space_shape": list(sp.shape),
+           "space": [_numj(v) for v in sp] if sp.ndim == 1 else [[_numj(v) for v in r] for r in sp],
+           "lower": [_numj(v) for v in numpy.ravel(prob.decn_space_lower)], "upper": [_numj(v) for v in numpy.ravel(prob.decn_space_upper)]}
+    if hasattr(prob, "decn_space_xmap"):
+        xm = numpy.asarray(prob.decn_space_xmap)
+        rec["nxmap"] = int(len(xm)); rec["xmap"] = xm.astype(int).tolist()
+    return rec
+
+def _recording(algo):
+    """minimize() of the optimiser first records the problem it is handed (what the protocol's problem() built at THIS call)"""
+    orig = algo.minimize
+    def minimize(*a, **kw):
+        prob = kw["prob"] if "prob" in kw else a[0]
+        algo.probrec = _prob_record(prob)
+        return orig(*a, **kw)
+    algo.minimize = minimize
+    algo.probrec = None
+    return algo
+
 def _wsum_trans(mat, w, **kwargs):
     """harness transformation of the front with exact (dyadic) values: weighted sum of the objectives"""
     return numpy.asarray(mat, dtype=float).dot(numpy.asarray(w, dtype=float))
@@ -983,7 +1049,7 @@ def _make_protocol(case, enc_algo_rng=None):
         from pybrops.opt.algo.SubsetGeneticAlgorithm import SubsetGeneticAlgorithm
         so = SubsetGeneticAlgorithm(ngen=6, pop_size=12, rng=numpy.random.Generator(numpy.random.PCG64(case["draw"]["seed"])))
     else: so = _stub_algo(enc, case)
-    kw["soalgo"] = so; kw["moalgo"] = _stub_algo(enc, case)
+    kw["soalgo"] = _recording(so); kw["moalgo"] = _recording(_stub_algo(enc, case))
     sfx = ENC_SUFFIX[enc]
     if fam == "ebv":
         import pybrops.breed.prot.sel.EstimatedBreedingValueSelection as Mod
@@ -1037,8 +1103,10 @@ def _select_once(case, perm=None, with_crit=True, stage=None, keep=None, step=No
         misc = {} if case.get("miscout", True) else None
         args = dict(pgmat=pg, gmat=pg, ptdf=None, bvmat=bv, gpmod=gm, t_cur=0, t_max=1)
         stage.append("select")
+        prot.soalgo.probrec = None; prot.moalgo.probrec = None
         cfg = prot.select(miscout=misc, **args)
         stage.append("done")
+        out["space"] = (prot.soalgo if case["nobj"] == 1 else prot.moalgo).probrec
         out["draws"] = rng.used; rng.used = []
         x = numpy.asarray(cfg.xconfig)
         out["xconfig"] = x.tolist(); out["shape"] = list(x.shape); out["dtype"] = str(x.dtype)
@@ -1079,7 +1147,10 @@ def _select_once(case, perm=None, with_crit=True, stage=None, keep=None, step=No
             with _patched_global(prng):
                 prot2, _ = _make_protocol(case)
                 prob = prot2.problem(**args)
-                out["crit"] = [_hx(float(numpy.asarray(prob.evalfn(numpy.array([e]))[0]).ravel()[0])) for e in prob.decn_space]
+                # every row of the problem's own cross map / every candidate of the population, whatever decision space the
+                # protocol handed to the optimiser
+                nunit = len(prob.decn_space_xmap) if case["enc"] == "mate" else int(pg.ntaxa)
+                out["crit"] = [_hx(float(numpy.asarray(prob.evalfn(numpy.array([e]))[0]).ravel()[0])) for e in range(nunit)]
                 out["ndecn"] = int(prob.ndecn)
     return out
 
@@ -1116,10 +1187,34 @@ def _run_select(case):
     if case.get("relabel"):
         try:
             r = _select_once(case, perm=case["relabel"], with_crit=True)
-            out["relabel"] = {k: r.get(k) for k in ("decn", "xconfig", "crit", "xmap")}
+            out["relabel"] = {k: r.get(k) for k in ("decn", "xconfig", "crit", "xmap", "space", "ndecn")}
         except Exception as e:
             out["relabel"] = {"raised": type(e).__name__, "msg": str(e)[:300]}
+    # the same population relabelled so that its best candidate crosses are crosses among the HIGHEST-index taxa: they sit in the
+    # tail of the cross map (selfs of the last taxa included when parents may repeat)
+    tp = _tail_perm(case, out)
+    if tp is not None:
+        try:
+            r = _select_once(case, perm=tp, with_crit=True)
+            out["tail"] = dict({k: r.get(k) for k in ("decn", "xconfig", "crit", "xmap", "space", "ndecn")}, perm=tp)
+        except Exception as e:
+            out["tail"] = {"raised": type(e).__name__, "msg": str(e)[:300], "perm": tp}
     return out
+
+def _tail_perm(case, out):
+    """relabelling (new candidate i is old candidate perm[i]) that sends the parents of the best ncross rows of the cross map (by
+    the recorded criterion, smaller is better, first row on ties) to the highest indices, the best first; None if that is the
+    identity or the case has no per-row criterion"""
+    if case["enc"] != "mate" or case["nobj"] != 1 or "crit" not in out or not out.get("xmap"): return None
+    crit = [F(_fh(h)) for h in out["crit"]]; xmap = out["xmap"]; n = case["ntaxa"]
+    if len(crit) != len(xmap): return None
+    top = sorted(range(len(crit)), key=lambda i: (crit[i], i))[:case["ncross"]]
+    first = []
+    for r in top:
+        for t in xmap[r]:
+            if t not in first and 0 <= t < n: first.append(t)
+    perm = [t for t in range(n) if t not in first] + first[::-1]
+    return None if perm == list(range(n)) else perm
 
 # ================================================================== Coq emitter
 def _nl(xs): return E.lst(xs, E.nat)
@@ -1286,6 +1381,30 @@ def _emit_select(case, out):
         parts.append(t)
     return "(" + "\n  && ".join(parts) + ")"
 
+def _space_term(case, sp):
+    """clause (a) against the model: the problem's cross map is the model's xmapix enumeration and the decision space handed to
+    the optimiser is the model's (every row of that enumeration); None for the protocols over individuals (predicate only)"""
+    enc, fam = case["enc"], case["family"]
+    if enc not in CROSS_BASED: return None
+    if sp is None or "xmap" not in sp: return "false"
+    n, k, nc, u = E.nat(case["ntaxa"]), E.nat(case["nparent"]), E.nat(case["ncross"]), E.b(case.get("unique", True))
+    ints = lambda xs: all(isinstance(v, int) for v in xs)
+    if not (ints(sp["lower"]) and ints(sp["upper"]) and all(len(r) == case["nparent"] and all(v >= 0 for v in r) for r in sp["xmap"])): return "false"
+    parts = ["onatll_eqb (xmapix %s %s %s) (Some %s)" % (n, k, u, E.lst(sp["xmap"], _nl))]
+    if enc == "mate":
+        if len(sp["space_shape"]) != 1 or not ints(sp["space"]): return "false"
+        parts.append("osubspace_eqb (xmap_subset_space %s %s %s %s) (Some (%s, %s, %s, %s))" % (n, k, nc, u, _zl(sp["space"]), _zl(sp["lower"]), _zl(sp["upper"]), E.z(sp["ndecn"])))
+    elif enc == "rmate":
+        ql = lambda xs: E.lst(xs, lambda v: E.q(F(v)))
+        parts.append("ovecspaceQ_eqb (xmap_vector_space %s %s %s %s %s) (Some (%s, %s, %s))" % (E.q(F(0)), E.q(F(1)), n, k, u, ql(sp["lower"]), ql(sp["upper"]), E.z(sp["ndecn"])))
+    else:
+        ncr = case["ncross"]
+        nm = case["nmating"] if isinstance(case["nmating"], list) else [case["nmating"]] * ncr
+        npg = case["nprogeny"] if isinstance(case["nprogeny"], list) else [case["nprogeny"]] * ncr
+        up = "1%Z" if enc == "bmate" else ("(ohv_int_upper %s %s)" % (_zl(nm), _zl(npg)) if fam == "ohv" else "(uc_int_upper %s %s)" % (k, _zl(nm)))
+        parts.append("ovecspaceZ_eqb (xmap_vector_space 0%%Z %s %s %s %s) (Some (%s, %s, %s))" % (up, n, k, u, _zl(sp["lower"]), _zl(sp["upper"]), E.z(sp["ndecn"])))
+    return " && ".join(parts)
+
 def _emit_select1(case, out):
     enc = case["enc"]; nc, npar = case["ncross"], case["nparent"]
     args_ok = "proto_args_ok %s %s %s %s" % (E.nat(nc), E.nat(npar), _matpar(case["nmating"]), _matpar(case["nprogeny"]))
@@ -1312,6 +1431,10 @@ def _emit_select1(case, out):
     if tm is None: return "false"
     parts = [args_ok]
     if ucb: parts.append(ucb)
+    for c2, sp in [(case, out.get("space"))] + [(dict(case, ntaxa=len(case["relabel"] if t == "relabel" else out[t]["perm"])), out[t].get("space"))
+                                                for t in ("relabel", "tail") if out.get(t) and "raised" not in out[t]]:
+        st = _space_term(c2, sp)
+        if st is not None: parts.append(st)
     if real: core, side = tm; parts.append(side)
     else: core = tm
     matelike = enc in CROSS_BASED
@@ -1331,6 +1454,16 @@ def _emit_select1(case, out):
                                  % (E.nat(nc), E.nat(npar), _zl(cz), _nl(sp[0][5]), _nl(sp[1][2]), _nll(sp[2]), _zl(decn), want_xc))
             else:
                 parts.append("is_topk %s %s %s" % (_zl(cz), _nl(decn), E.nat(k)))
+            # the relabelled runs (a permutation of the case / the best crosses moved to the tail of the map): again the sorting
+            # optimiser over the WHOLE map / population
+            if case["family"] != "random":
+                for t in ("relabel", "tail"):
+                    rl = out.get(t)
+                    if not rl or "raised" in rl or not rl.get("crit"): continue
+                    cz2 = _crit_ints(rl["crit"]); d2 = [int(v) for v in rl["decn"]]
+                    if any(v < 0 for v in d2): return "false"
+                    if len(set(cz2)) == len(cz2): parts.append("onatl_eqb (sort_select %s %s) (Some %s)" % (_zl(cz2), E.nat(k), _nl(d2)))
+                    else: parts.append("is_topk %s %s %s" % (_zl(cz2), _nl(d2), E.nat(k)))
     else:
         if soln is None or "tvals" not in out:                          # miscout=None: the front is not observable, configuration only
             parts.append("%s %s (Some %s)" % (eqx, core, want_xc))
@@ -1582,6 +1715,47 @@ def _pred_select(case, out):
             for b in _pred_select1(c2, o): bad.append("select() #%d on the same protocol (%s): %s" % (i + 2, what, b))
     return bad
 
+def _want_xmap(case):
+    npar = case["nparent"]
+    return [list(c) for c in (itertools.combinations(range(case["ntaxa"]), npar) if case.get("unique", True)
+                              else itertools.combinations_with_replacement(range(case["ntaxa"]), npar))]
+
+def _pred_space(case, sp, what=""):
+    """clause (a): the decision space the protocol hands to the optimiser covers exactly the candidates - every row of the
+    problem's cross map for the protocols over candidate crosses (subset encoding: the admissible members are 0..len(map)-1 and
+    every position may take every row; vector encodings: one bounded variable per row), every individual otherwise.  Stated on
+    the recorded problem; the expected map is enumerated here with itertools (independent of the model and of the library)"""
+    enc = case["enc"]; fam = case["family"]; nc, npar = case["ncross"], case["nparent"]
+    if sp is None: return [what + "no problem was handed to the optimiser"]
+    bad = []
+    cross = enc in CROSS_BASED
+    if cross:
+        want = _want_xmap(case); nunit = len(want); unit = "rows of the problem's cross map"
+        if sp.get("xmap") != want:
+            bad.append(what + "the problem's cross map (%s rows) is not the lexicographic list of the %d %s %d-tuples of the %d candidates"
+                       % (sp.get("nxmap"), nunit, "strictly increasing" if case.get("unique", True) else "non-decreasing", npar, case["ntaxa"]))
+        if sp.get("nxmap") is not None: nunit = sp["nxmap"]             # judged against the problem's OWN map
+    else: nunit = case["ntaxa"]; unit = "candidates of the population"
+    if enc in ("subset", "mate"):
+        k = {"subset": npar if fam == "random" else nc * npar, "mate": nc}[enc]
+        if sp["space"] != list(range(nunit)):
+            miss = [d for d in range(nunit) if d not in sp["space"]]; extra = [d for d in sp["space"] if not (isinstance(d, int) and 0 <= d < nunit)]
+            bad.append(what + "the decision space has %d members, the %s are %d: %s can never be chosen%s"
+                       % (len(sp["space"]), unit, nunit, ("rows %r" % miss[:8]) if cross else ("candidates %r" % miss[:8]), (", %r do not exist" % extra[:8]) if extra else ""))
+        if sp["ndecn"] != k: bad.append(what + "the problem has %d decision variables, the cross design needs %d" % (sp["ndecn"], k))
+        if cross and (sp["lower"] != [0] * k or sp["upper"] != [nunit - 1] * k):
+            bad.append(what + "bounds of the decision variables are %r / %r, expected %d times 0 / %d (the last row of the map)" % (sp["lower"][:6], sp["upper"][:6], k, nunit - 1))
+    else:
+        if sp["ndecn"] != nunit or len(sp["lower"]) != nunit or len(sp["upper"]) != nunit:
+            bad.append(what + "the problem has %d decision variables with %d / %d bounds, the %s are %d (one variable per %s)"
+                       % (sp["ndecn"], len(sp["lower"]), len(sp["upper"]), unit, nunit, "row" if cross else "candidate"))
+        if sp["space"] != [sp["lower"], sp["upper"]]: bad.append(what + "the decision space is not the stacked lower / upper bounds")
+        if cross:
+            if any(v != 0 for v in sp["lower"]): bad.append(what + "lower bound of the decision space %r is not 0 everywhere" % sp["lower"][:8])
+            if enc in ("bmate", "rmate") and any(v != 1 for v in sp["upper"]): bad.append(what + "upper bound of the decision space %r is not 1 everywhere" % sp["upper"][:8])
+            if enc == "imate" and any(not isinstance(v, int) or v < 1 for v in sp["upper"]): bad.append(what + "upper bound of the decision space %r excludes using a candidate cross once" % sp["upper"][:8])
+    return bad
+
 def _pred_select1(case, out):
     bad = []
     enc = case["enc"]; nc, npar = case["ncross"], case["nparent"]; fam = case["family"]
@@ -1637,6 +1811,12 @@ def _pred_select1(case, out):
                 want_wt = 1.0 if case.get("ndset_wt") is None else case["ndset_wt"]
                 if _fh(out["ndset_wt"]) != want_wt: bad.append("ndset_wt %r differs from the declared %r" % (_fh(out["ndset_wt"]), want_wt))
             if enc in CROSS_BASED and not out.get("soln_xmap_same", True): bad.append("configuration's cross map differs from the solution's")
+    # --- clause (a): the decision space handed to the optimiser
+    bad += _pred_space(case, out.get("space"))
+    for tag in ("relabel", "tail"):
+        if out.get(tag) and "raised" not in out[tag]:
+            pi = case["relabel"] if tag == "relabel" else out[tag]["perm"]            # (a relabelling may list fewer candidates: a sub-population)
+            bad += _pred_space(dict(case, ntaxa=len(pi)), out[tag].get("space"), "%s run: " % ("relabelled" if tag == "relabel" else "tail-relabelled"))
     # --- configuration clauses relative to the chosen decision
     xmap = out.get("xmap")
     if enc in CROSS_BASED:
@@ -1680,29 +1860,38 @@ def _pred_select1(case, out):
             val = lambda i, t: (b8(i, t) * F(case.get("scale", [1.0] * case["ntrait"])[t]) + F(case.get("loc", [0.0] * case["ntrait"])[t])) if case.get("unscale", True) else b8(i, t)
             want = [F(wt) * -sum(val(i, t) for t in range(case["ntrait"])) for i in range(case["ntaxa"])]
             if crit != want: bad.append("the protocol's per-candidate criterion is not the weighted negated breeding value")
-        # relabelling the candidates permutes the choice
-        rl = out.get("relabel")
-        if rl and "raised" in rl: bad.append("select() on the relabelled population raised %s" % rl["raised"])
-        elif rl and fam != "random":
-            pi = case["relabel"]
-            crit2 = [F(_fh(h)) for h in rl["crit"]]
-            close = lambda a, b: abs(a - b) <= F(1, 10 ** 9) * (1 + abs(b))
-            sc = sorted(crit)
-            distinct = all(not close(sc[i], sc[i + 1]) for i in range(len(sc) - 1))
-            if enc == "subset":
-                if not all(close(a, crit[pi[i]]) for i, a in enumerate(crit2)): bad.append("criterion of the relabelled population is not the relabelled criterion")
-                if distinct:
-                    if sorted(pi[d] for d in rl["decn"]) != sorted(decn): bad.append("relabelled run chose %r = original candidates %r, original run chose %r" % (rl["decn"], sorted(pi[d] for d in rl["decn"]), sorted(decn)))
-                elif not all(close(a, b) for a, b in zip(sorted(crit2[d] for d in rl["decn"]), chosen)): bad.append("relabelled run chose other criterion values")
-            else:
-                # cross d2 of the relabelled map consists of original candidates pi[.]
-                orig = lambda d2: tuple(sorted(pi[p] for p in rl["xmap"][d2]))
-                mine = sorted(tuple(sorted(xmap[d])) for d in decn)
-                cmap = {tuple(sorted(r)): crit[i] for i, r in enumerate(xmap)}
-                vals2 = sorted(cmap[orig(d2)] for d2 in rl["decn"])
-                if not all(close(a, b) for a, b in zip(vals2, chosen)): bad.append("relabelled run chose crosses with other criterion values")
-                if distinct:
-                    if sorted(orig(d2) for d2 in rl["decn"]) != mine: bad.append("relabelled run chose crosses %r, original run %r" % (sorted(orig(d2) for d2 in rl["decn"]), mine))
+        # relabelling the candidates permutes the choice; in the relabelled population the choice is again the k best of the whole
+        # map / population ("tail": the relabelling that moves the best crosses to the highest-index taxa, i.e. to the tail of the map)
+        for tag, rl, pi in (("relabelled", out.get("relabel"), case.get("relabel")), ("tail-relabelled", out.get("tail"), (out.get("tail") or {}).get("perm"))):
+            if rl and "raised" in rl: bad.append("select() on the %s population raised %s: %s" % (tag, rl["raised"], rl.get("msg", "")[:120]))
+            elif rl and fam != "random":
+                crit2 = [F(_fh(h)) for h in rl["crit"]]
+                close = lambda a, b: abs(a - b) <= F(1, 10 ** 9) * (1 + abs(b))
+                sc = sorted(crit)
+                distinct = all(not close(sc[i], sc[i + 1]) for i in range(len(sc) - 1))
+                if len(crit2) != len(crit): bad.append("%s run: %d criterion values, original run %d" % (tag, len(crit2), len(crit))); continue
+                if any(not (0 <= d < len(crit2)) for d in rl["decn"]): bad.append("%s run: decision %r refers to a row / candidate that does not exist" % (tag, rl["decn"])); continue
+                ch2 = sorted(crit2[d] for d in rl["decn"])
+                if ch2 != sorted(crit2)[:len(rl["decn"])] or len(rl["decn"]) != k:
+                    bad.append("%s run (new candidate i = old candidate %r[i]): chosen members %r (criteria %r) are not the %d best of all %d (criteria %r)"
+                               % (tag, pi, rl["decn"], [float(c) for c in ch2], k, len(crit2), [float(c) for c in sorted(crit2)[:k]]))
+                if enc == "subset":
+                    if not all(close(a, crit[pi[i]]) for i, a in enumerate(crit2)): bad.append("criterion of the %s population is not the relabelled criterion" % tag)
+                    if distinct:
+                        if sorted(pi[d] for d in rl["decn"]) != sorted(decn): bad.append("%s run chose %r = original candidates %r, original run chose %r" % (tag, rl["decn"], sorted(pi[d] for d in rl["decn"]), sorted(decn)))
+                    elif not all(close(a, b) for a, b in zip(ch2, chosen)): bad.append("%s run chose other criterion values" % tag)
+                else:
+                    # cross d2 of the relabelled map consists of original candidates pi[.]
+                    orig = lambda d2: tuple(sorted(pi[p] for p in rl["xmap"][d2]))
+                    mine = sorted(tuple(sorted(xmap[d])) for d in decn)
+                    cmap = {tuple(sorted(r)): crit[i] for i, r in enumerate(xmap)}
+                    if any(orig(d2) not in cmap for d2 in range(len(rl["xmap"]))) or len(rl["xmap"]) != len(xmap):
+                        bad.append("cross map of the %s population is not the relabelled cross map" % tag); continue
+                    if not all(close(crit2[d2], cmap[orig(d2)]) for d2 in range(len(crit2))): bad.append("criterion of the %s population is not the relabelled criterion" % tag)
+                    vals2 = sorted(cmap[orig(d2)] for d2 in rl["decn"])
+                    if not all(close(a, b) for a, b in zip(vals2, chosen)): bad.append("%s run chose crosses with other criterion values" % tag)
+                    if distinct:
+                        if sorted(orig(d2) for d2 in rl["decn"]) != mine: bad.append("%s run chose crosses %r, original run %r" % (tag, sorted(orig(d2) for d2 in rl["decn"]), mine))
     rl0 = out.get("relabel")
     if rl0 and rl0.get("xconfig") and enc not in CROSS_BASED:
         lo = _local_opt(rl0["xconfig"])
